@@ -42,6 +42,8 @@ PRODUCERS = [  # name, fuzzy, key
 _PROG = {}
 
 
+# third family: results holding NaN and +-inf as ordinary (non-missing) cells (the CSV reader delivers them for cells "nan" / "inf")
+NF_PRODUCERS = [("pn", False, "f_nan"), ("pm", False, "f_nan_miss"), ("pg", False, "f_full")]
 NC_PRODUCERS = [("p2", True, "z_2d"), ("q2", False, "f_2d"), ("r2", False, "f_2d_miss"), ("i2", False, "i_2d"), ("y2", True, "z_2d_full")]
 
 
@@ -49,6 +51,8 @@ def _table():
     return {
         "f_miss": lambda: numpy.ma.MaskedArray([-1.0, 0.5, 2.0, 5.0], mask=[False, True, False, False]),
         "f_full": lambda: numpy.ma.MaskedArray([1.5, -2.0, 0.0, 0.25]),
+        "f_nan": lambda: numpy.ma.MaskedArray([float("nan"), 1.0, float("inf"), 0.5]),
+        "f_nan_miss": lambda: numpy.ma.MaskedArray([2.0, float("-inf"), float("nan"), 0.0], mask=[False, False, False, True]),
         "i_full": lambda: numpy.ma.MaskedArray(numpy.array([2, -1, 0, 5], dtype=numpy.int64)),
         "z_miss": lambda: numpy.ma.MaskedArray([-1.0, 0.25, 1.0, -0.5], mask=[False, False, True, False]),
         "z_full": lambda: numpy.ma.MaskedArray([0.5, -1.0, 1.0, 0.0], mask=[False, False, False, False]),
@@ -80,7 +84,7 @@ def _new_program(workdir):
     C.TABLE.update(_table())
     # the Program object only holds the command table and the library lookup: one lookup per worker, fresh commands per replay
     if _PROG.get("wd") != workdir:
-        _PROG["p"] = Program(libraries=LIBS if MODE["libs"] == "csv" else NC_LIBS, working_dir=workdir)
+        _PROG["p"] = Program(libraries=NC_LIBS if MODE["libs"] == "netcdf" else LIBS, working_dir=workdir)
         _PROG["wd"] = workdir
         if MODE["libs"] == "netcdf":
             from netCDF4 import Dataset
@@ -93,7 +97,7 @@ def _new_program(workdir):
                 ds.createVariable("t", "f8", ("y", "x"))[:] = numpy.zeros((2, 2))
     p = _PROG["p"]
     p.commands = {}
-    for name, fz, key in (PRODUCERS if MODE["libs"] == "csv" else NC_PRODUCERS):
+    for name, fz, key in {"csv": PRODUCERS, "netcdf": NC_PRODUCERS, "nonfinite": NF_PRODUCERS}[MODE["libs"]]:
         p.add_command(C.ConstFZ if fz else C.ConstNF, name, {"Key": key})
         p.commands[name].run()
     return p
@@ -189,6 +193,10 @@ def cases(tier):
     yield ("hist", ("reread", 0, ("pf",)), tier, "csv")
     # NetCDF library set: 2-D producers, the NetCDF writer among the consumers (first event = every writer form and every fuzzy/non-fuzzy
     # n-ary and unary command over the 2-D producers)
+    nf_base = [(n, fz, (4,)) for n, fz, k in NF_PRODUCERS]
+    for ev in _consumer_events(nf_base):
+        if ev[1] == 0:
+            yield ("hist", ev, tier, "nonfinite")
     nc_base = [(n, fz, (2, 2)) for n, fz, k in NC_PRODUCERS]
     for ev in _consumer_events(nc_base):
         if ev[0] == "EEMSWrite" or ev[1] == 0:
@@ -237,6 +245,8 @@ def run(case):
         if oc1 and oc1.startswith("err"):
             nontriv += 1
         depth2 = list(_consumer_events(_results_of(p))) + [("reread", 0, ("c0",)), ("rerun", 0, ())]
+        if libs == "nonfinite":
+            depth2 = [e for e in depth2 if e[1] == 0 and len(e[2]) <= 1 or e[0] in ("EEMSWrite", "PrintVars", "reread", "rerun")]
         if libs == "netcdf" and ev1[0] != "EEMSWrite":
             depth2 = [e for e in depth2 if e[0] in ("EEMSWrite", "reread", "rerun")]  # non-writer pairs are covered by the CSV family
         derived = {n for n in p.commands if n.startswith("c")}
